@@ -311,6 +311,9 @@ func RunN[S any](t *testing.T, id string, scale float64, gen func(*rapid.T) S, r
 					fmt.Printf("@@REPLAY-VIOLATION %s %s\n%s\n", v.Assertion, v.Msg, strings.Join(c.note, "\n"))
 				}
 			}
+			if os.Getenv("VERIF_REPLAY_VERBOSE") != "" && i == 0 {
+				fmt.Printf("@@REPLAY-HISTORY\n%s\n", strings.Join(c.note, "\n"))
+			}
 			record(id, c, env.Scenario)
 		}
 		fmt.Printf("@@REPLAY-RESULT property=%s runs=%d violations=%d\n", id, n, fails)
